@@ -790,3 +790,75 @@ func maxInt(a, b int) int {
 //@   invariant 0 len(buf) < 1<<40 && implies(len(buf) > 0 && stripped_index == ^uint64(0), position+1+carried == 0) && implies(len(buf) > 0 && stripped_index != ^uint64(0), position+1+carried+stripped_index == 0 && stripped_index < 1<<32)
 //@   decreases 0 len(buf)
 //@   safe
+
+// ---------------------------------------------------------------------------
+// Stage 2: tape builder. Safety (C05) and tape shape facts (C17) as label invariants of the goto machine.
+
+// R-stream (rely on stage 1): the positions delivered through the index buffers are offsets of bytes of the
+// message (stage-1 obligations: deltas are distances between set bits of the block masks, padding is white space).
+//@ func updateChar
+//@   props C05
+//@   trusted R-stream: positions delivered by stage 1 lie inside Message (asmvc flatten/fold obligations + findStructuralIndices)
+//@   assigns pj.indexesChan
+//@   ensures inrange: implies(!done, idx < uint64(len(pj.Message)))
+//@   ensures chan: chanStateOK(pj)
+//@   nonnil pj
+
+//@ func parseString
+//@   props C05 C17
+//@   trusted asm string kernels (asmvc _parse_string_validate_only window obligations; _parse_string copying kernel not yet under contract)
+//@   assigns pj.Tape, pj.Strings
+//@   ensures ok: implies(result, len(pj.Tape) == len(old(pj.Tape))+2 && tagOf(pj.Tape[len(old(pj.Tape))]) == TagString)
+//@   ensures rejected: implies(!result, len(pj.Tape) == len(old(pj.Tape)))
+//@   ensures prefix: forall(0, len(old(pj.Tape)), func(j int) bool { return pj.Tape[j] == old(pj.Tape)[j] })
+//@   ensures strs: pj.Strings != nil
+//@   nonnil pj
+
+// consumer-side view of the current index buffer: the read cursor is inside [0,length], and a non-empty
+// buffer has at most indexSize entries and a backing array
+func chanStateOK(pj *internalParsedJson) bool {
+	return 0 <= pj.indexesChan.index && implies(pj.indexesChan.index < pj.indexesChan.length, pj.indexesChan.length <= indexSize && pj.indexesChan.indexes != nil)
+}
+
+// scope stack: entry k holds (tape index of the opener << 2) | return state; entries 0 (root) and 1 (the
+// top-level container) return to the start state, deeper ones to their enclosing object / array
+func scopesOK(S []uint64, T []uint64) bool {
+	return forall(0, len(S), func(k int) bool {
+		return S[k]>>retAddressShift < uint64(len(T)) && iff(k <= 1, S[k]&3 == retAddressStartConst) &&
+			(S[k]&3 == retAddressStartConst || S[k]&3 == retAddressObjectConst || S[k]&3 == retAddressArrayConst)
+	})
+}
+
+//@ func (*internalParsedJson).unifiedMachine
+//@   props C05 C17
+//@   requires chanStateOK(pj) && len(pj.containingScopeOffset) == 0 && len(pj.Message) < 1<<40 && pj.Strings != nil
+//@   invariant @continueRoot chan: chanStateOK(pj) && sameSlice(buf, pj.Message) && pj.Strings != nil
+//@   invariant @continueRoot depth: len(pj.containingScopeOffset) == 1
+//@   invariant @continueRoot scopes: scopesOK(pj.containingScopeOffset, pj.Tape)
+//@   invariant @continueRoot idx: idx < uint64(len(buf))
+//@   invariant @for.loop chan: chanStateOK(pj) && sameSlice(buf, pj.Message) && pj.Strings != nil
+//@   invariant @for.loop depth: len(pj.containingScopeOffset) == 1
+//@   invariant @for.loop scopes: scopesOK(pj.containingScopeOffset, pj.Tape)
+//@   invariant @for.loop idx: idx < uint64(len(buf))
+//@   invariant @object_begin chan: chanStateOK(pj) && sameSlice(buf, pj.Message) && pj.Strings != nil
+//@   invariant @object_begin depth: len(pj.containingScopeOffset) >= 2
+//@   invariant @object_begin scopes: scopesOK(pj.containingScopeOffset, pj.Tape)
+//@   invariant @object_key_state chan: chanStateOK(pj) && sameSlice(buf, pj.Message) && pj.Strings != nil
+//@   invariant @object_key_state depth: len(pj.containingScopeOffset) >= 2
+//@   invariant @object_key_state scopes: scopesOK(pj.containingScopeOffset, pj.Tape)
+//@   invariant @objectContinue chan: chanStateOK(pj) && sameSlice(buf, pj.Message) && pj.Strings != nil
+//@   invariant @objectContinue depth: len(pj.containingScopeOffset) >= 2
+//@   invariant @objectContinue scopes: scopesOK(pj.containingScopeOffset, pj.Tape)
+//@   invariant @arrayContinue chan: chanStateOK(pj) && sameSlice(buf, pj.Message) && pj.Strings != nil
+//@   invariant @arrayContinue depth: len(pj.containingScopeOffset) >= 2
+//@   invariant @arrayContinue scopes: scopesOK(pj.containingScopeOffset, pj.Tape)
+//@   invariant @mainArraySwitch chan: chanStateOK(pj) && sameSlice(buf, pj.Message) && pj.Strings != nil
+//@   invariant @mainArraySwitch depth: len(pj.containingScopeOffset) >= 2
+//@   invariant @mainArraySwitch scopes: scopesOK(pj.containingScopeOffset, pj.Tape)
+//@   invariant @mainArraySwitch idx: idx < uint64(len(buf))
+//@   invariant @scopeEnd chan: chanStateOK(pj) && sameSlice(buf, pj.Message) && pj.Strings != nil
+//@   invariant @scopeEnd depth: len(pj.containingScopeOffset) >= 2
+//@   invariant @scopeEnd scopes: scopesOK(pj.containingScopeOffset, pj.Tape)
+//@   invariant @scopeEnd idx: idx < uint64(len(buf))
+//@   opt termination off
+//@   safe
